@@ -136,3 +136,27 @@ Proof.
            (fun s _ => all_runs_mono _ _ _ (fun t out H => proj1 H) (awp_sound _ _ _ _ s (HT s)))).
   apply all_runs_mono. intros t out H s. apply H. exact I.
 Qed.
+
+(* ---------------------------------------------------------------- C13 on the world: without a valid, non-empty selection
+   (an empty reply, an invalid one, end of input, nothing to offer) trash-restore leaves the file system as it found it *)
+Lemma sel_not_allowed : forall t st st', accepts sel_step st t = Some st' -> snd st' <> Allowed ->
+  Forall (fun p => is_mutator (fst p) = false) t.
+Proof.
+  induction t as [|[o r] t IH]; intros st st' Ha Hn; [constructor|]. simpl in Ha.
+  destruct (sel_step st o r) as [st1|] eqn:Es; [|discriminate].
+  assert (Hst : snd st <> Allowed).
+  { intros E. destruct st as [n ph]. simpl in E. subst ph. simpl in Es. inversion Es; subst st1. clear - Ha Hn.
+    assert (G : forall t, accepts sel_step (n, Allowed) t = Some st' -> snd st' = Allowed).
+    { induction t0 as [|[o' r'] t0 IH0]; simpl; intros H; [inversion H; reflexivity|auto]. }
+    apply Hn. eapply G. exact Ha. }
+  constructor; [|eapply IH; eauto]. simpl.
+  destruct st as [n ph]. simpl in Hst. unfold sel_step in Es. destruct ph; try contradiction; destruct (is_mutator o); try discriminate; reflexivity.
+Qed.
+
+Theorem restore_without_selection_lemma o :
+  all_runs (fun t _ => forall st, accepts sel_step (0%nat, Before) t = Some st -> snd st <> Allowed ->
+                                  forall s s', wrun s t s' -> same s s') (restore_main o).
+Proof.
+  generalize (restore_selection_lemma o). apply all_runs_mono.
+  intros t out _ st Ha Hn s s' Hr. eapply wrun_probes; [|exact Hr]. eapply sel_not_allowed; eauto.
+Qed.
